@@ -24,6 +24,7 @@ import PyomaVerif.Ops.Poles
 import PyomaVerif.Ops.C17Table
 import PyomaVerif.Ops.C08
 import PyomaVerif.Ops.MsGather
+import PyomaVerif.Ops.C18Whole
 /-! Line-protocol driver: one JSON object per line in, one JSON value per line out. -/
 open Lean PV PV.Codec
 
@@ -35,6 +36,7 @@ def allOps : List (String × (Json → Except String Json)) :=
   ++ PV.Ops.C17Table.ops
   ++ PV.Ops.C08.ops
   ++ PV.Ops.MsGather.ops
+  ++ PV.Ops.C18Whole.ops
 
 def handle (line : String) : String :=
   match Json.parse line with
